@@ -77,6 +77,8 @@ def family_delegating(tier, shard, nshards, acc):
         for m in real:
             if m.get("body") == "cnv":
                 m["env"] = {"__v": h.instances[m["env"]["__v"]]}
+            elif m.get("body") == "cnv2":
+                m["env"] = {"__v": tuple(h.instances[x] for x in m["env"]["__v"])}
         fn, log = c07.build(h, real, carrier)
         defaults = c07.build.last_defaults
         methods = {ms["id"]: RefMethod(ms, i) for i, ms in enumerate(real)}
@@ -124,6 +126,8 @@ def replay(case):
         for m in real:
             if m.get("body") == "cnv":
                 m["env"] = {"__v": h.instances[m["env"]["__v"]]}
+            elif m.get("body") == "cnv2":
+                m["env"] = {"__v": tuple(h.instances[x] for x in m["env"]["__v"])}
         fn, log = c07.build(h, real, case.get("carrier", "plain"))
         methods = {ms["id"]: RefMethod(ms, i) for i, ms in enumerate(real)}
         args = tuple(h.instances[a] for a in case["call"]["args"])
